@@ -86,6 +86,18 @@ def run(res, tier, seed):
         if rng.random() < 0.2:
             # an item is added, not a rule: a bare variable (names as in the generator's pool of bare items)
             adds.insert(rng.randrange(len(adds) + 1), {"k": "var", "id": rng.choice(["1a", "9", "10", "zz", "Base", "q7"]), "b": [0, 1]})
+        if rng.random() < 0.12:
+            # ids whose order depends on how they are compared: decimal ids of different lengths ("9" before "10" as numbers,
+            # after it as text) next to an id that starts with a digit ("1a") - the configurator has ONE order for them,
+            # whichever way the rules arrive
+            d1, d2 = rng.choice([("9", "10"), ("2", "100"), ("9", "100"), ("10", "9")])
+            base["ch"] = [c for c in base["ch"] if c.get("id") not in (d1, d2, "1a")]
+            base["ch"].insert(rng.randrange(len(base["ch"]) + 1), {"k": "str", "id": d1})
+            base["ch"].insert(rng.randrange(len(base["ch"]) + 1), {"k": rng.choice(["str", "var"]), "id": d2, "b": [0, 1]})
+            mid = {"k": "var", "id": "1a", "b": [0, 1]} if rng.random() < 0.5 else {"k": "Any", "ch": [g.leaf(rng.choice(g.items)), g.leaf(rng.choice(g.items))], "id": "1a"}
+            adds = [a for a in adds if a.get("id") not in (d1, d2, "1a")]
+            adds.insert(rng.randrange(len(adds) + 1), mid)
+            nadd = len(adds); res.count("order_sensitive_ids")
         if rng.random() < 0.25 and len(g.items) >= 4:
             # a defaulted rule whose non-default branch Any(rest) also occurs, untagged and with the same generated id,
             # inside a rule of the other configurator (add() shares rule objects between the two)
